@@ -574,7 +574,19 @@ def in1(F, R):
                 tgt = e.args[1]
                 pre = [m for m in rraw if m.kind == "call" and m.name == "insert" and "HashSet" in m.path and m.body is e.body and
                        strip_sites(unload(m.args[1])) == strip_sites(unload(tgt)) and m.body.dominates(m.site, e.site)]
-                if pre:
+                # ... or the visited set is created already holding it: HashSet::from([v])
+                def holds_start(a):
+                    a = unload(a)
+                    if a[0] == "call" and a[1].split("::")[-1] in ("from", "from_iter") and ("HashSet" in a[1] or "BTreeSet" in a[1]) and a[2]:
+                        arr = strip_load(a[2][0])
+                        for _ in range(3):
+                            if arr[0] in ("cast",):
+                                arr = strip_load(arr[2])
+                            elif arr[0] == "iter":
+                                arr = strip_load(arr[1])
+                        return arr[0] == "array" and any(strip_sites(unload(x)) == strip_sites(unload(tgt)) for x in arr[1])
+                    return False
+                if pre or any(holds_start(a) for a in e.args):
                     R.ok("IN1", e.where(), "the start vertex is marked visited before the descent starts")
                 else:
                     R.bad("IN1", "IN1/Sodg::inspect/start-vertex-not-marked-visited", e.where(),
